@@ -416,6 +416,49 @@ def annotation_leak(ctx):
 
 
 # ---------------------------------------------------------------------------
+# what the doctests of one project import must not depend on the doctests of another project that ran before: a project holds a file
+# named like a library module that nobody has imported yet (colorsys.py, sndhdr.py); its own code imports that name
+# ---------------------------------------------------------------------------
+def shadow_import(ctx):
+    from xdoctest import core
+    tmp = tempfile.mkdtemp(prefix='xdverif_c11s_')
+    path0 = list(sys.path)
+    lib = 'colorsys'
+    had = sys.modules.pop(lib, None)
+    try:
+        a, b = os.path.join(tmp, 'proj_a'), os.path.join(tmp, 'proj_b')
+        os.makedirs(a)
+        os.makedirs(b)
+        open(os.path.join(a, lib + '.py'), 'w').write('# a project-local helper that happens to be called like a library module\nLOCAL = True\n')
+        open(os.path.join(a, 'xdverif_c11_tool.py'), 'w').write('import %s\n\ndef tool():\n    """\n    >>> print(\'tool ran\')\n    tool ran\n    """\n' % lib)
+        open(os.path.join(b, 'xdverif_c11_paint.py'), 'w').write('def paint():\n    """\n    >>> import %s\n    >>> print(hasattr(%s, \'rgb_to_hsv\'))\n    True\n    """\n' % (lib, lib))
+        def one(path):
+            with warnings.catch_warnings():
+                warnings.simplefilter('ignore')
+                return list(core.parse_doctestables(path, style='freeform', analysis='static'))[0]
+        for order in (['paint'], ['tool', 'paint'], ['tool', 'tool', 'paint']):
+            for k in [k for k in sys.modules if k == lib or k.startswith('xdverif_c11_tool') or k.startswith('xdverif_c11_paint')]:
+                del sys.modules[k]
+            obs = []
+            for name in order:
+                ex = one(os.path.join(a, 'xdverif_c11_tool.py') if name == 'tool' else os.path.join(b, 'xdverif_c11_paint.py'))
+                obs.append(observe(ex, None)[0])
+            ctx.evaluations += 1
+            if obs[-1] != 'passed' or sys.path != path0:
+                ctx.violation('history-dependence', {
+                    'what': 'a doctest that imports the library module %r is %s after the doctests %r of ANOTHER project (which holds a file %s.py and imports it); alone it passes' % (
+                        lib, obs[-1], order[:-1], lib), 'history': order, 'theorem_or_correspondence': 'C11 isolation: what a later doctest imports'}, True)
+                break
+    finally:
+        sys.path[:] = path0
+        for k in [k for k in sys.modules if k == lib or k.startswith('xdverif_c11_tool') or k.startswith('xdverif_c11_paint')]:
+            del sys.modules[k]
+        if had is not None:
+            sys.modules[lib] = had
+        shutil.rmtree(tmp, ignore_errors=True)
+
+
+# ---------------------------------------------------------------------------
 # RuntimeState histories vs the heap model
 # ---------------------------------------------------------------------------
 EFFECTS = [('REQUIRES', True, UNMET_A), ('REQUIRES', False, UNMET_A), ('REQUIRES', True, UNMET_B), ('REQUIRES', False, UNMET_B),
@@ -575,6 +618,7 @@ def run(ctx):
     unit_histories(ctx)
     history_search(ctx)
     annotation_leak(ctx)
+    shadow_import(ctx)
     pytest_histories(ctx)
     ctx.add_rule('RuntimeState: seeded histories of 1..4 states (default options none/{}/booleans) x 0..4 updates (block/inline, +-REQUIRES unmet a/b/met, +-SKIP) vs the heap model; '
                  'DocTest histories: permutations of 2 and 3 of the 13 doctests of a generated module + seeded histories of 4..7 with repetitions, on re-used and fresh '
